@@ -131,6 +131,8 @@ type State struct {
 	strKeys []Term
 	epoch   int
 	skipEnter bool
+	epochExcept map[string]bool
+	selfVal *Value
 }
 
 func (f *Frame) clone() *Frame {
@@ -227,14 +229,15 @@ func (st *State) heapGet(name string, sort Sort) Term {
 	}
 	st.eng().heapSorts[name] = sort
 	vn := name + "!0"
-	if st.epoch > 0 {
+	if st.epoch > 0 && !st.epochExcept[name] {
 		vn = fmt.Sprintf("%s!e%d", name, st.epoch)
 	}
 	t := st.eng().constNamed(vn, sort)
 	st.heap[name] = t
 	if st.entry != nil && st.entry != st {
 		if _, ok := st.entry.heap[name]; !ok {
-			st.entry.heap[name] = t
+			// the entry state's version is always the initial one (a havoc-all may lie in between)
+			st.entry.heap[name] = st.eng().constNamed(name+"!0", sort)
 		}
 	}
 	return t
